@@ -16,6 +16,22 @@ def parseOrder (s : String) : Option Order :=
         if acc.has k then none else go (i + 1) (acc ++ [(k, i)]) vs
     go 0 [] items
 
+/-- a level map given explicitly: `A=0,B=0,A-B=1` (keys with `-` are frozensets); later
+duplicates of a key overwrite the level in place, like a dict literal built by assignment -/
+def parseLevels (s : String) : Option Order :=
+  if s == "-" then some []
+  else
+    (s.splitOn ",").foldlM (fun (acc : Order) kv =>
+      match kv.splitOn "=" with
+      | [k, v] =>
+        match v.toNat? with
+        | none => none
+        | some n =>
+          let key : OKey := if k.contains '-' then .many (ofList (k.splitOn "-")) else .one k
+          if acc.has key then some (acc.map fun e => if e.1.same key then (e.1, n) else e)
+          else some (acc ++ [(key, n)])
+      | _ => none) []
+
 /-- `--group-source` values: `key:val1,val2` -/
 def parseGroup (s : String) : GroupMap :=
   if s == "-" then []
@@ -73,21 +89,12 @@ def handle (args : List String) : String :=
     | none, _ => "crash:ValueError"
     | _, none => "bad-cfg"
     | some o0, some mg =>
-      let g := parseGroup group
-      let gv := parseGvfs gvfs
+      let x : CliOpts := { order0 := o0, group := parseGroup group, gvfs := parseGvfs gvfs,
+                           tx2gene := parseTx2gene t2g }
       let pool := mergePools (parseFiles files)
-      let (o, srcs) := splitterOrder g o0 gv
-      let additional := parseAdditional addl
-      if !(additional.all fun a => a.all fun x => isWild x || o.has (.one x)) then "crash:ValueError"
-      else
-        match wildcardMap o srcs with
-        | none => "crash:ValueError"
-        | some wm =>
-          let env : SrcEnv := { tx2gene := parseTx2gene t2g, getSource := sourceFirst gv,
-                                group := g, order := o, wildcard := wm }
-          match split { env := env, maxGroups := mg, additional := additional } pool with
-          | .error e => crash e
-          | .ok dbs => joinWith "##" (sortDedupStr (dbs.map dbStr))
+      match cliSplit x mg (parseAdditional addl) pool with
+      | .error e => crash e
+      | .ok dbs => joinWith "##" (sortDedupStr (dbs.map dbStr))
   | "summarize" :: order :: group :: enzyme :: ignoreMissing :: t2g :: gvfs :: files =>
     match parseOrder order, enzymeRules enzyme with
     | none, _ => "crash:ValueError"
@@ -95,19 +102,15 @@ def handle (args : List String) : String :=
     | some o0, some (rule, exc) =>
       let g := parseGroup group
       let gv := parseGvfs gvfs
+      let x : CliOpts := { order0 := o0, group := g, gvfs := gv, tx2gene := parseTx2gene t2g }
       let pool := mergePools (parseFiles files)
-      let o := summarizerOrder g o0 gv
-      let env : SrcEnv := { tx2gene := parseTx2gene t2g, getSource := sourceLast gv,
-                            group := g, order := o, wildcard := [] }
-      match summarize env rule exc pool with
+      let o := x.order
+      match cliSummarize x rule exc pool with
       | .error e => crash e
       | .ok t =>
         let maxMisc := t.foldl (fun m e => e.2.2.foldl (fun m' kv => max m' kv.1) m) 0
         let present : SrcSet := t.foldl (fun s e => e.1.foldl (fun s x => setInsert x s) s) []
-        let sources := (isort (fun (a b : OKey × Nat) => a.2 ≤ b.2) o).filterMap fun kv =>
-          match kv.1 with
-          | .one x => some x
-          | .many _ => none
+        let sources := o.plain
         let parserOf := gv.map fun f => (f.source, f.parser)
         let combs := (List.range sources.length).flatMap fun i => combos (i + 1) sources
         let rows := combs.foldl (fun (acc : Option (List String)) comb =>
@@ -143,10 +146,43 @@ def handle (args : List String) : String :=
     | some o =>
       let sa := ofList (splitList a '-')
       let sb := ofList (splitList b '-')
-      if sameSet sa sb then "0"
-      else match toInt o sa, toInt o sb with
-        | some x, some y => if intsGt x y then "1" else "0"
-        | _, _ => "crash:KeyError"
+      match srcGt o sa sb with
+      | some true => "1"
+      | some false => "0"
+      | none => "crash:KeyError"
+  | ["gtl", levels, a, b] =>
+    match parseLevels levels with
+    | none => "bad-cfg"
+    | some o =>
+      match srcGt o (splitList a '-') (splitList b '-') with
+      | some true => "1"
+      | some false => "0"
+      | none => "crash:KeyError"
+  | ["tointl", levels, a] =>
+    match parseLevels levels with
+    | none => "bad-cfg"
+    | some o =>
+      match toInt o (splitList a '-') with
+      | some l => joinWith "," (l.map toString)
+      | none => "crash:KeyError"
+  | "decode" :: decoy :: pos :: rest =>
+    let c : DecoyCfg := { str := decoy.toList, prefixPos := pos == "prefix" }
+    let rec go (dict : List (List Char × List Char)) : List String → String
+      | "//" :: outs =>
+        joinWith ";" (outs.map fun h =>
+          match decode c dict.reverse h.toList with
+          | some x => String.ofList x
+          | none => "?")
+      | i :: h :: more => go ((i.toList, h.toList) :: dict) more
+      | _ => "bad-op"
+    go [] rest
+  | ["toint", order, a] =>
+    match parseOrder order with
+    | none => "crash:ValueError"
+    | some o =>
+      match toInt o (ofList (splitList a '-')) with
+      | some l => joinWith "," (l.map toString)
+      | none => "crash:KeyError"
   | _ => "bad-op"
 
 end MoPepGen.Driver.C18
